@@ -1,6 +1,7 @@
 package sim
 
 import (
+	"strings"
 	"fmt"
 	"math/rand"
 	"os"
@@ -202,7 +203,7 @@ func (w *World) setupLive() {
 	}
 	var specs []TxSpec
 	// the second live consumer becomes a Top-N consumer: ownership to governance, then a proposal
-	if len(w.Shadow.Consumers) >= 2 && w.Cfg.Profile != "rewards" {
+	if len(w.Shadow.Consumers) >= 2 && w.Cfg.Profile != "rewards" && !strings.HasPrefix(w.Cfg.Profile, "fault-") {
 		ci := w.Shadow.Consumers[1]
 		w.Tick()
 		w.ProviderStep([]TxSpec{{Signer: owner, Msgs: []sdk.Msg{&providertypes.MsgUpdateConsumer{Owner: owner.Addr.String(), ConsumerId: ci.ID, NewOwnerAddress: GovAddr()}}, Tag: "update-consumer:owner->gov"}}, true, nil)
@@ -335,5 +336,10 @@ func RunWorld(t testing.TB, profile, tier string, seed int64, idx int, out strin
 		w.MainLoop()
 		w.FinalChecks()
 	}()
+	if rp := os.Getenv("VERIF_RECORD"); rp != "" && w.Cfg.Record {
+		if err := w.WriteRecord(rp); err != nil {
+			fatal += "\nwrite record: " + err.Error()
+		}
+	}
 	w.Finish(out, start, fatal)
 }
